@@ -46,11 +46,11 @@ theorem default_when_empty (env : Env) (n : Bytes) (w : List WPart) (h : envF en
 
 /-! ## shell.Expand = here-document semantics -/
 
-theorem shellExpand_eq_finish (s : Bytes) (env : Env) :
+theorem shellExpand_eq_finish (s : Bytes) (env : Env) (hrisk : contRisk false 0 s = false) :
     shellExpand s env =
       finishDoc env (parseDoc ((joinLines false s).length + 1) (joinLines false s) [] []) := by
   unfold shellExpand finishDoc
-  simp only
+  simp only [hrisk, Bool.false_eq_true, if_false]
   cases parseDoc ((joinLines false s).length + 1) (joinLines false s) [] [] with
   | err => rfl
   | outside => rfl
@@ -58,11 +58,13 @@ theorem shellExpand_eq_finish (s : Bytes) (env : Env) :
 
 /-- On the fragment, shell.Expand gives what bash gives for the string as here-document text —
     provided the lexer's line continuation agrees with bash's on the string (no run of three or
-    more backslashes right before a newline; see the counter-example). -/
+    more backslashes right before a newline; see the counter-example) and no continuation sits
+    inside a `${` / `$((` / `))` token (`contRisk`, finding C25-continuation-inside-dollar-token). -/
 theorem expand_is_heredoc_partial (s : Bytes) (env : Env)
-    (hjoin : joinLines false s = bashJoin s) (hin : hdocSem s env ≠ .outside) :
+    (hjoin : joinLines false s = bashJoin s) (hrisk : contRisk false 0 s = false)
+    (hin : hdocSem s env ≠ .outside) :
     shellExpand s env = hdocSem s env := by
-  rw [shellExpand_eq_finish]
+  rw [shellExpand_eq_finish s env hrisk]
   unfold hdocSem at hin ⊢
   simp only at hin ⊢
   rw [hjoin]
@@ -83,6 +85,14 @@ def bs3 : Bytes := [bBS, bBS, bBS, bNL, 120]   -- \\\<newline>x
     continuation test after any backslash rune) reads `\`, `\`, newline, `x`. -/
 theorem expand_is_heredoc_counterexample :
     hdocSem bs3 [] = .ok [bBS, 120] ∧ shellExpand bs3 [] = .ok [bBS, bBS, bNL, 120] := by
+  constructor <;> decide +kernel
+
+def dollarCont : Bytes := [bDollar, bBS, bNL, bLB, 120, bRB]   -- $\<newline>{x}
+
+/-- `$`, backslash-newline, `{x}`: bash reads `${x}`; the Go lexer does not (the model answers
+    `outside`, the harness witness is in corpus/C25-known.txt). -/
+theorem dollar_continuation_outside :
+    hdocSem dollarCont [([120], [118])] = .ok [118] ∧ shellExpand dollarCont [([120], [118])] = .outside := by
   constructor <;> decide +kernel
 
 theorem expand_is_heredoc_statement_false : ¬ expand_is_heredoc_statement := by
@@ -129,14 +139,17 @@ theorem fields_empty_dquotes : shellFields emptyDqInput emptyDqEnv = .ok [[], [9
 /-- In the fragment an error of shell.Expand is a syntax error: it does not depend on the environment. -/
 theorem expand_error_env_independent (s : Bytes) (env env' : Env) :
     shellExpand s env = .err → shellExpand s env' = .err := by
-  rw [shellExpand_eq_finish, shellExpand_eq_finish]
-  cases parseDoc ((joinLines false s).length + 1) (joinLines false s) [] [] with
-  | err => intro _; rfl
-  | outside => intro h; cases h
-  | ok parts =>
-    intro h
-    simp only [finishDoc] at h
-    cases hx : expandPartsQ env false parts <;> simp [hx] at h
+  by_cases hrisk : contRisk false 0 s = true
+  · intro h; simp [shellExpand, hrisk] at h
+  · have hr : contRisk false 0 s = false := by simpa using hrisk
+    rw [shellExpand_eq_finish s env hr, shellExpand_eq_finish s env' hr]
+    cases parseDoc ((joinLines false s).length + 1) (joinLines false s) [] [] with
+    | err => intro _; rfl
+    | outside => intro h; cases h
+    | ok parts =>
+      intro h
+      simp only [finishDoc] at h
+      cases hx : expandPartsQ env false parts <;> simp [hx] at h
 
 /-- The full statement: shell.Expand reports an error exactly when the specification does.  Not
     proved and not refuted: beyond the side conditions below it can only differ where the
@@ -147,9 +160,10 @@ def error_iff_syntax_statement : Prop :=
 /-- shell.Expand reports an error exactly when the specification does (same side conditions as
     `expand_is_heredoc_partial`). -/
 theorem error_iff_syntax_partial (s : Bytes) (env : Env)
-    (hjoin : joinLines false s = bashJoin s) (hin : hdocSem s env ≠ .outside) :
+    (hjoin : joinLines false s = bashJoin s) (hrisk : contRisk false 0 s = false)
+    (hin : hdocSem s env ≠ .outside) :
     shellExpand s env = .err ↔ hdocSem s env = .err := by
-  rw [expand_is_heredoc_partial s env hjoin hin]
+  rw [expand_is_heredoc_partial s env hjoin hrisk hin]
 
 /-- The same for shell.Fields. -/
 theorem fields_error_env_independent (s : Bytes) (env env' : Env)
